@@ -800,20 +800,21 @@ def liveIdxs : Fields → List Nat
   | [] => []
   | (a, _) :: fs => if a.skip then liveIdxs fs else a.idx :: liveIdxs fs
 
-/-- blob leaves that need a codec may only occur directly (or under one `Option`) in a field. -/
-def noBareBlob : FTy → Bool
-  | .blob k => !k.needsCodec
-  | .option (.blob k) => !k.needsCodec
-  | _ => true
+/-- the declared type of a field is a byte string (possibly optional): the only place where the
+    kinds that need `with = "minicbor::bytes"` may occur. -/
+def fieldBlob : FTy → Bool
+  | .blob _ => true
+  | .option (.blob _) => true
+  | _ => false
 
 mutual
 def accepted : FTy → Bool
   | .int _ => true
   | .bool => true
   | .text _ => true
-  | .blob _ => true
-  | .option t => accepted t && noBareBlob t
-  | .vec t => accepted t && noBareBlob t
+  | .blob k => !k.needsCodec        -- below the declared type of a field no codec applies
+  | .option t => accepted t
+  | .vec t => accepted t
   | .struct a fs =>
       tagOk a.tag && acceptedFields fs && nodupNat (liveIdxs fs)
       && (a.shape != .unit || fs.isEmpty)
@@ -824,7 +825,7 @@ def accepted : FTy → Bool
 termination_by structural t => t
 def acceptedFields : Fields → Bool
   | [] => true
-  | (a, t) :: fs => fieldAttrOk a t && accepted t && acceptedFields fs
+  | (a, t) :: fs => fieldAttrOk a t && (fieldBlob t || accepted t) && acceptedFields fs
 termination_by structural fs => fs
 def acceptedVars (e : EAttr) : Variants → Bool
   | [] => true
